@@ -23,7 +23,7 @@ def finding(fid, prop, also, sig, desc, probe=None):
             if p not in probe.get("props", [prop] + also): continue
             d = os.path.join(V, "replays", p); os.makedirs(d, exist_ok=True)
             body = {"property": p, "check": "probe", "what": "finding probe", "case": {
-                "finding": fid, "source": probe["source"], "target": probe.get("target", "sqlite"), "db": DB,
+                "finding": fid, "source": probe["source"], "target": probe.get("target", "sqlite"), "db": probe.get("db", DB),
                 "expect_rows": probe.get("rows"), "expect_arity": probe["arity"],
                 "expect_ordered": probe.get("ordered", False)}}
             json.dump(body, open(os.path.join(d, f"probe-{fid}.json"), "w"), indent=1)
@@ -358,6 +358,11 @@ finding("C07-wildcard-join-duplicate-names", "C07", ["C01", "C05"],
  "a join of two relations of unknown columns (`from t | join u (..)`, both emitted as `t.*, u.*`) that share a column name, followed by steps that move the join into a CTE and refer to a shared name (hazard wild_dup_join)",
  "`from t1 | join t2 (==id) | derive {c2 = 1} | filter t2.a == 5` compiles to `WITH table_0 AS (SELECT t1.*, t2.*, 1 AS c2 FROM t1 INNER JOIN t2 ON t1.id = t2.id) SELECT * FROM table_0 WHERE a = 5`: inside table_0 there are two columns `a`; the filter meant t2.a (SQLite silently takes the first, other engines reject the ambiguous name). With a self-join (`from t3 | join r0 = t3 (==s) | derive {..} | filter r0.a == 0`) the reference becomes `_expr_1`, which table_0 never defines (no such column).",
  None)
+finding("C09-user-table-renamed-after-sstring-cte", "C09", [],
+ "a let-table whose body is a table s-string (`from s\"..\"`) that needs a CTE of its own, in a program that reads a user table called `table_0`: the emitted SQL reads `table_1 AS table_0`",
+ "The CTE made for the s-string relation is named `table_0` without regard to the user's table of that name, and the user's table is then renamed as if it were a generated one: `let x = (from s\"SELECT 1 AS id\" | take 1)  from table_0 | join x (==id)` compiles to `WITH table_0 AS (SELECT 1 AS id), x AS (..) SELECT .. FROM table_1 AS table_0 INNER JOIN x ..` - `table_1` does not exist. (Seen by a seeding agent on the unchanged tree; s-strings are outside the generators, so only this probe exercises it.)",
+ {"source": "let x = (from s\"SELECT 1 AS id\" | take 1)\nfrom table_0 | join x (==id) | select {table_0.id, table_0.a}", "arity": 2, "rows": [[I(1), I(10)]], "props": ["C09"],
+  "db": {"tables": [{"name": "table_0", "cols": [{"name":"id","ty":"Int"},{"name":"a","ty":"Int"}], "rows": [[I(1),I(10)],[I(2),I(20)]]}]}})
 finding("C08-formatter-rewrites-literal-with-backslash", "C08", [],
  "output formatting on (the default `Options::format`), a string literal whose value contains a backslash",
  "The SQL text is re-laid-out by sqlformat, whose tokenizer treats backslash as an escape character inside quotes: `select {v = '\\\\'}` (the one-character value backslash) is emitted as `' \\ '` with formatting on (and correctly as the two characters quote-backslash-quote with `no_format`): the literal's content is rewritten, and a backslash before the closing quote makes the rest of the statement part of the 'string'.",
